@@ -60,6 +60,15 @@ pub fn strategy(min_loops: u8, max_loops: u8) -> impl Strategy<Value = Case> {
             Op::AwaitStart { task: 0 },
             Op::Cancel { task: 0, park_ms: park },
         ]),
+        2 => (50u8..120, 40u8..90, 1u8..12).prop_map(|(d, spin, wait)| vec![
+            // cancel a task that is parked in a delay while another task computes on the same loop
+            Op::Submit { body: Body::Delay(d), prio: 0 },
+            Op::AwaitStart { task: 0 },
+            Op::Submit { body: Body::Spin(spin), prio: 0 },
+            Op::AwaitStart { task: 1 },
+            Op::Sleep(wait),
+            Op::Cancel { task: 0, park_ms: 0 },
+        ]),
         1 => (bystander_body(), 1u8..30).prop_map(|(b, ms)| vec![
             // cancel a task twice while another one is running
             Op::Submit { body: Body::GateSuspended, prio: 0 },
@@ -133,7 +142,27 @@ pub fn judge(c: &Case, run: Run) -> Outcome {
     // A cancel aimed at a task that had started and not finished takes the signal path (or
     // the cancel-the-coroutine path); problems of bystanders in such histories are reported
     // under their own family, see known_findings.json.
-    let fam = if hit_running_or_suspended { format!("{pre}/cancel-of-a-started-task") } else { pre.to_string() };
+    // A target that sits in a single `delay(ms)` is off the CPU from shortly after its start until
+    // its wake-up time: a cancel that begins >= 2 ms after the start and returns >= 3 ms before
+    // the wake-up time, without the canceller having been on the signal path, has met a *parked*
+    // task. Nothing is signalled then; bystanders must not notice (strict signatures).
+    let certainly_parked = |x: &rt::CancelLog| {
+        let t = &l.tasks[x.task];
+        match t.body {
+            Body::Delay(ms) if ms >= 12 && !x.parked && t.started != 0 => x.at >= t.started + 2_000_000 && x.done + 3_000_000 <= t.started + u64::from(ms) * 1_000_000,
+            _ => false,
+        }
+    };
+    let met: Vec<&rt::CancelLog> = l.cancels.iter().filter(|x| (x.started_after && !x.ended_before) || x.parked).collect();
+    let only_parked_targets = !met.is_empty() && met.iter().all(|x| certainly_parked(x));
+    o = o.class_if(met.iter().any(|x| certainly_parked(x)), "cancel-hit-a-task-parked-in-a-delay");
+    let fam = if only_parked_targets {
+        format!("{pre}/cancel-of-a-parked-task")
+    } else if hit_running_or_suspended {
+        format!("{pre}/cancel-of-a-started-task")
+    } else {
+        pre.to_string()
+    };
     // (a)
     for k in &queued_for_sure {
         let t = &l.tasks[*k];
